@@ -193,7 +193,7 @@ def run_cases(name, imports, ty, func, cases, prelude="", extra="", shard=400, t
     """cases: list of (input_term, output_val_term) strings.  Evaluates `func` on every input
     inside Coq and returns (sorted global indices where model and recorded output differ,
     dict of extra 'NAME = value' integers printed by `extra`, seconds)."""
-    d = os.path.join(BUILD, "cases", name)
+    d = os.path.join(BUILD, "cases", f"{name}_{os.getpid()}")      # per process: concurrent runs do not collide
     shutil.rmtree(d, ignore_errors=True)
     os.makedirs(d)
     shards = [cases[i:i + shard] for i in range(0, len(cases), shard)] or [[]]
@@ -223,13 +223,15 @@ def run_cases(name, imports, ty, func, cases, prelude="", extra="", shard=400, t
             bad += [i * shard + j for j in idxs]
             for k, v in re.findall(r"(\w+)\s*=\s*(\d+)(?:%nat)?\s*:\s*nat", out):
                 extras[k] = extras.get(k, 0) + int(v)
+    if not os.environ.get("VERIF_KEEP_CASES"):
+        shutil.rmtree(d, ignore_errors=True)
     return sorted(bad), extras, time.time() - t0
 
 
 def eval_terms(name, imports, terms, prelude="", timeout=600):
     """Evaluate each Coq term (of type val or anything printable on one line) with vm_compute and
     return the printed results as strings, in order."""
-    d = os.path.join(BUILD, "cases", name)
+    d = os.path.join(BUILD, "cases", f"{name}_{os.getpid()}")
     shutil.rmtree(d, ignore_errors=True)
     os.makedirs(d)
     fn = os.path.join(d, "eval.v")
